@@ -308,7 +308,8 @@ def rule_dispatch(ctx):
             bad = True
             continue
         it = show(enters[0].data["iterable"])
-        if "event_handlers.get(event.__class__" not in it:
+        evp = f.params()[1]  # the event parameter, whatever it is called
+        if f"event_handlers.get({evp}.__class__" not in it:
             ctx.violated("C14.DISPATCH", f.short, f"handlers are not looked up by the event's class: {it[:80]}", fi=f, text="lookup-key")
             bad = True
         exits = [e for e in pa.events if e.kind == "loop-exit"]
@@ -321,7 +322,7 @@ def rule_dispatch(ctx):
             evs = [e for e in pa.events if any(c[0] == "loop" and c[2] == i for c in e.ctx)]
             iscor = [e for e in evs if e.kind == "assume" and "iscoroutinefunction" in show(e.data["cond"])]
             calls = [e for e in evs if e.kind == "call"]
-            direct = [e for e in calls if isinstance(e.data["callee"], Term) and e.data["callee"].op in ("val", "elem", "unpack") and e.data["args"] and show(e.data["args"][0]) == "event"]
+            direct = [e for e in calls if isinstance(e.data["callee"], Term) and e.data["callee"].op in ("val", "elem", "unpack") and e.data["args"] and show(e.data["args"][0]) == evp]
             tasks = [e for e in calls if is_call(e.data["term"], method="create_task")]
             if not iscor:
                 ctx.violated("C14.DISPATCH", f.short, "handlers are not distinguished by asyncio.iscoroutinefunction", fi=f, text="no-coro-test")
